@@ -326,6 +326,11 @@ def callback_contained(ctx, R, roles, T, f, chunk_term, rule):
     g = ctx.cfg(f)
     q = f.qualname
     cbs = [(n, c) for n in g.live_nodes() for c in node_calls(n) if isinstance(unawait(c.func), ast.Name) and unawait(c.func).id == "progress_callback"]
+    dfx = ctx.df(f)
+    for m in g.nodes:
+        for d in dfx.node_defs.get(m, []):
+            if d.var == "progress_callback" and m is not g.entry:
+                R.fail(rule, q + "|reassigned|" + norm_stmt(m.ast), "the progress callback is rebound during the transfer (`%s`): later chunks are not reported and the byte counts no longer sum to the file size" % norm_stmt(m.ast), f.loc(m.ast))
     R.check(len(cbs) == 1, rule, q + "|site", "one callback site", "expected one progress_callback call site, found %d" % len(cbs), f.loc())
     for n, c in cbs:
         ok = len(c.args) == 3 and T.term(f, n, c.args[1]) == ("LEN", chunk_term)
